@@ -76,8 +76,9 @@ type World struct {
 	// decision for the real host function to replay) what the host does.
 	Host func(w *World, in *Inst, tag, v int32) (int32, *Fail)
 	// Listen reports whether a listener is attached to the function with
-	// this debug name.
-	Listen func(name string) bool
+	// this debug name in the compilation instance in was created from (nil for
+	// the host module).
+	Listen func(in *Inst, name string) bool
 	Events []Event
 	// chain is the current call chain (debug names), innermost last; engine
 	// boundaries (re-entrant Call) are marked by chainBase.
@@ -89,8 +90,8 @@ type World struct {
 	MaxDepthSeen int
 }
 
-func (w *World) emit(e Event) {
-	if w.Listen != nil && w.Listen(e.Func) {
+func (w *World) emit(in *Inst, e Event) {
+	if w.Listen != nil && w.Listen(in, e.Func) {
 		w.Events = append(w.Events, e)
 	}
 }
@@ -141,10 +142,10 @@ func (w *World) APICallRec(in *Inst, r int, x int32) (int32, *Fail) {
 func (w *World) gleaf(in *Inst, x int32) int32 {
 	name := in.P.Name + ".gleaf"
 	w.chain = append(w.chain, name)
-	w.emit(Event{Kind: "before", Func: name, Vals: []uint32{uint32(x)}, Chain: w.curChain()})
+	w.emit(in, Event{Kind: "before", Func: name, Vals: []uint32{uint32(x)}, Chain: w.curChain()})
 	in.Globals[3]++
 	w.chain = w.chain[:len(w.chain)-1]
-	w.emit(Event{Kind: "after", Func: name, Vals: []uint32{uint32(x + 1)}})
+	w.emit(in, Event{Kind: "after", Func: name, Vals: []uint32{uint32(x + 1)}})
 	return x + 1
 }
 
@@ -155,14 +156,14 @@ func (w *World) call(in *Inst, fn int, x int32) (res int32, fail *Fail) {
 	if w.Depth > w.MaxDepthSeen {
 		w.MaxDepthSeen = w.Depth
 	}
-	w.emit(Event{Kind: "before", Func: name, Vals: []uint32{uint32(x)}, Chain: w.curChain()})
+	w.emit(in, Event{Kind: "before", Func: name, Vals: []uint32{uint32(x)}, Chain: w.curChain()})
 	defer func() {
 		w.Depth--
 		w.chain = w.chain[:len(w.chain)-1]
 		if fail != nil {
-			w.emit(Event{Kind: "abort", Func: name})
+			w.emit(in, Event{Kind: "abort", Func: name})
 		} else {
-			w.emit(Event{Kind: "after", Func: name, Vals: []uint32{uint32(res)}})
+			w.emit(in, Event{Kind: "after", Func: name, Vals: []uint32{uint32(res)}})
 		}
 	}()
 	acc := x
@@ -212,14 +213,14 @@ func (w *World) call(in *Inst, fn int, x int32) (res int32, fail *Fail) {
 			acc = r
 		case AHost:
 			w.chain = append(w.chain, "env.h")
-			w.emit(Event{Kind: "before", Func: "env.h", Vals: []uint32{uint32(a.A), uint32(acc)}, Chain: w.curChain()})
+			w.emit(nil, Event{Kind: "before", Func: "env.h", Vals: []uint32{uint32(a.A), uint32(acc)}, Chain: w.curChain()})
 			r, f := w.Host(w, in, a.A, acc)
 			w.chain = w.chain[:len(w.chain)-1]
 			if f != nil {
-				w.emit(Event{Kind: "abort", Func: "env.h"})
+				w.emit(nil, Event{Kind: "abort", Func: "env.h"})
 				return 0, f
 			}
-			w.emit(Event{Kind: "after", Func: "env.h", Vals: []uint32{uint32(r)}})
+			w.emit(nil, Event{Kind: "after", Func: "env.h", Vals: []uint32{uint32(r)}})
 			acc = r
 		case ATrap:
 			if a.A == TrapDivZero || a.A == TrapOOBLoad || a.A == TrapOOBStore || a.A == TrapUnreachable || a.A == TrapTruncOverflow || a.A == TrapAtomicOOB8 || a.A == TrapAtomicCmpxchgOOB8 {
